@@ -4,7 +4,7 @@
 //! every block-size border 192*2^n + delta is reached *exactly* as zero prefix
 //! + crafted suffix, in every update form, with and without the size hint.
 
-use crate::c01::{case_json, form_name, run_case, start_generator, start_generator_dirty, validate_hook, Chunk};
+use crate::c01::{case_json, form_name, run_case, start_generator, start_generator_dirty_kind, validate_hook, Chunk};
 use crate::common::*;
 use crate::corpus;
 use crate::gen_util::*;
@@ -98,19 +98,28 @@ fn hook_vs_real(n: u64) -> Result<(), String> {
 }
 
 /// One border case: zero prefix + suffix W_k^m (+ optional hint), one form.
-fn border_case(zp: u64, chunks: &[Chunk], hint: Option<u64>, acc: &mut Acc, sigp: &str, dirty: bool) {
+fn border_case(zp: u64, chunks: &[Chunk], hint: Option<u64>, acc: &mut Acc, sigp: &str, dirty: u8) {
     let case_json = |zp: u64, chunks: &[Chunk], hint: Option<u64>| {
         let mut c = case_json(zp, chunks, hint);
         c["dirty_start"] = json!(dirty);
         c
     };
-    let mut g = if dirty { start_generator_dirty(zp) } else { start_generator(zp) };
+    let mut g = if dirty > 0 { start_generator_dirty_kind(zp, dirty) } else { start_generator(zp) };
     let mut r = Ctph::new(zp);
     acc.evaluations += 1;
     acc.nontrivial += 1;
     if let Some(h) = hint {
         match guarded(|| g.set_fixed_input_size(h)) {
-            Ok(Ok(())) => {}
+            Ok(Ok(())) => {
+                // a second, different (much smaller) declaration is refused and must change nothing
+                if dirty == 0 && h > 16 {
+                    let r2 = guarded(|| g.set_fixed_input_size(h / 4096));
+                    if r2 != Ok(Err(GeneratorError::FixedSizeMismatch)) {
+                        acc.violation(format!("{} second declaration", sigp), format!("second declaration {} after {} returned {:?}", h / 4096, h, r2), case_json(zp, chunks, hint));
+                        return;
+                    }
+                }
+            }
             Ok(Err(e)) => {
                 if h <= MAX {
                     acc.violation(format!("{} hint", sigp), format!("hint {} refused: {:?}", h, e), case_json(zp, chunks, hint));
@@ -209,8 +218,8 @@ pub fn run(ctx: &Ctx) -> Report {
                 for (fi, &form) in FORMS3.iter().enumerate() {
                     for hint in [None, Some(total)] {
                         let chunks = vec![Chunk { word: corpus::W[k as usize].to_vec(), count: m, form }];
-                        for dirty in [false, true] {
-                            let sigp = format!("border n={} delta={} W{}^{} {} hint={}{}", n, delta, k, m, form_name(form), hint.is_some(), if dirty { " reused-generator" } else { "" });
+                        for dirty in [0u8, 1, 2] {
+                            let sigp = format!("border n={} delta={} W{}^{} {} hint={}{}", n, delta, k, m, form_name(form), hint.is_some(), if dirty > 0 { " reused-generator" } else { "" });
                             border_case(zp, &chunks, hint, acc, &sigp, dirty);
                         }
                         if n == 30 && delta == 0 && k == 30 && m == 64 && fi == 0 && hint.is_none() {
@@ -235,9 +244,9 @@ pub fn run(ctx: &Ctx) -> Report {
             let zp = total - tail.len() as u64;
             for &form in &FORMS3 {
                 for hint in [None, Some(total)] {
-                    for dirty in [false, true] {
+                    for dirty in [0u8, 1, 2] {
                         let chunks = vec![Chunk { word: tail.to_vec(), count: 1, form }];
-                        let sigp = format!("piece-poor n={} delta={} tail={}B {} hint={}{}", n, delta, tail.len(), form_name(form), hint.is_some(), if dirty { " reused-generator" } else { "" });
+                        let sigp = format!("piece-poor n={} delta={} tail={}B {} hint={}{}", n, delta, tail.len(), form_name(form), hint.is_some(), if dirty > 0 { " reused-generator" } else { "" });
                         border_case(zp, &chunks, hint, acc, &sigp, dirty);
                     }
                 }
@@ -335,7 +344,7 @@ pub fn run(ctx: &Ctx) -> Report {
     rep.set("exhaustive", true);
     rep.set(
         "rule",
-        "for every n in 0..=30 and delta in -2..=2 the total size 192*2^n+delta is reached exactly as hook(zero prefix) + W_k^m with every k in 0..=30, m in {31,32,33,64,65} (thorough: {1,2,31,32,33,63,64,65,66}), in the slice / iterator / byte forms, without and with the correct size hint, on a fresh generator and on a reused one (all 31 contexts populated by an earlier input, then reset()); the same for piece-poor inputs (zero prefix + a short tail); plus 'pieces, 7 real zero bytes, in-place zero skip, pieces' histories whose total lands on a border +-1; plus all sizes 0..=8200 and all borders for the warning; plus sizes around 96 GiB, 192 GiB and u64::MAX for the hard limit.  All cases are distinct by construction; non-trivial = the library is called and compared with the reference.",
+        "for every n in 0..=30 and delta in -2..=2 the total size 192*2^n+delta is reached exactly as hook(zero prefix) + W_k^m with every k in 0..=30, m in {31,32,33,64,65} (thorough: {1,2,31,32,33,63,64,65,66}), in the slice / iterator / byte forms, without and with the correct size hint, on a fresh generator and on two kinds of reused ones (all 31 contexts populated by an earlier input / an earlier input digested under a small declared size; then reset()); after an accepted hint a second, much smaller declaration is attempted and must be refused without effect; the same for piece-poor inputs (zero prefix + a short tail); plus 'pieces, 7 real zero bytes, in-place zero skip, pieces' histories whose total lands on a border +-1; plus all sizes 0..=8200 and all borders for the warning; plus sizes around 96 GiB, 192 GiB and u64::MAX for the hard limit.  All cases are distinct by construction; non-trivial = the library is called and compared with the reference.",
     );
     rep.assume("sizes above a few MiB are reached through hook H1 (zero prefix / in-place zero skip), whose equivalence with really feeding zeros is checked exhaustively for N < 4096 (thorough: 65536), around every border up to 192*2^13 (thorough: 2^24 ~ 3 GiB) and inductively (step(hook(N),0) == hook(N+1)) around every border up to 192 GiB");
     rep.assume("refmodel::ctph is ssdeep 2.14.1 (self-test)");
